@@ -32,6 +32,9 @@ from typedpy import (AllOf, AnyOf, Array, Deque, Deserializer, ImmutableSet, Int
 
 from typedpy.structures import Field, TypedPyDefaults
 from typedpy import DateField, DateTime, Enum, ImmutableStructure, mappers
+from typedpy import DecimalNumber
+from typedpy.extfields import TimeField
+import decimal
 from typedpy import serialize as tp_serialize
 
 from extract import shared_writes as SW
@@ -54,6 +57,11 @@ def _build_tables():
             # functions that fill a module-level cache: every line is a yield point in the "sitelines" scope
             SITEFUNCS.add((os.path.abspath(os.path.join(SW.repo_dir(), r["path"])), r["first_line"]))
         if not r.get("events") or r["valueKind"] not in ("perCall", "ownerName"):
+            continue
+        if not r["readBack"]:
+            # a name left behind in the shared Field object that no validator reads back (the validators work on private
+            # copies): the site function stays a yield-point region, but its write is not an event of the model
+            SITEFUNCS.add((os.path.abspath(os.path.join(SW.repo_dir(), r["path"])), r["first_line"]))
             continue
         path = os.path.join(SW.repo_dir(), r["path"])
         path = os.path.abspath(path)
@@ -84,6 +92,14 @@ def _build_tables():
 
 
 _build_tables()
+
+# CPython pre-empts between BYTECODES: the instructions through which a function can read or write state that other
+# threads see (attributes, items, globals, `in` tests, calls - setattr / getattr / dict methods / callees)
+import dis as _dis
+HOT_OPS = frozenset(_dis.opmap[n] for n in (
+    "LOAD_ATTR", "STORE_ATTR", "DELETE_ATTR", "BINARY_SUBSCR", "STORE_SUBSCR", "DELETE_SUBSCR", "CALL", "CALL_FUNCTION_EX",
+    "STORE_GLOBAL", "DELETE_GLOBAL", "CONTAINS_OP", "LOAD_SUPER_ATTR", "BINARY_SLICE", "STORE_SLICE", "FOR_ITER", "LOAD_DEREF",
+    "STORE_DEREF") if n in _dis.opmap)
 
 # ------------------------------------------------------------------ values on the wire
 
@@ -146,6 +162,10 @@ def canon(v):
         return {"date": v.isoformat()}
     if isinstance(v, pyenum.Enum):
         return {"enum": v.name}
+    if isinstance(v, datetime.time):
+        return {"time": v.isoformat()}
+    if isinstance(v, decimal.Decimal):
+        return {"decimal": str(v)}
     if isinstance(v, Structure):
         return {"struct": type(v).__name__,
                 "fields": {k: canon(getattr(v, k, None)) for k in sorted(type(v).get_all_fields_by_name())}}
@@ -211,6 +231,42 @@ class Shape:
             self.cells[f] = nums
         self.racy = racy
         self.extra = extra or {}
+        # cell -> key of the validator site that renames that Field object (the owner collection / wrapper field)
+        self.sites = {}
+        for c in self.classes:
+            for f, objs in cells:
+                owner = c.__dict__.get(f) if isinstance(c.__dict__.get(f), Field) else None
+                if owner is None:
+                    continue
+                for o in objs:
+                    if _reaches(owner, o):
+                        self.sites.setdefault(self.cell_ids[id(o)], set()).update(site_keys(owner))
+
+
+def site_keys(owner):
+    """the shared-write table keys of the sites at which the collection / wrapper field `owner` renames its item objects"""
+    t = type(owner).__name__
+    if t == "ImmutableSet":     # ImmutableSet.__set__ validates, then hands the frozenset to Set.__set__
+        return [site_key(owner), "shared-_name:set_field.py:Set.__set__"]
+    return [site_key(owner)]
+
+
+def site_key(owner):
+    t = type(owner).__name__
+    its = getattr(owner, "items", None)
+    if t in ("Array", "Deque") and isinstance(its, Field):
+        return "shared-_name:array.py:extract_field_value"
+    where = {"Array": "array.py", "Deque": "deque_field.py", "Tuple": "tuple_field.py", "Set": "set_field.py",
+             "ImmutableSet": "set_field.py", "Map": "map_field.py", "AllOf": "multified_wrappers.py",
+             "AnyOf": "multified_wrappers.py", "OneOf": "multified_wrappers.py", "NotField": "multified_wrappers.py"}
+    return f"shared-_name:{where.get(t, '?')}:{t}.__set__"
+
+
+def _reaches(owner, obj):
+    its = getattr(owner, "items", None)
+    subs = list(its) if isinstance(its, (list, tuple)) else [its]
+    subs += list(getattr(owner, "_fields", None) or [])
+    return any(x is obj for x in subs)
 
 
 def _nn():
@@ -277,7 +333,7 @@ def _build_shape(name):
         class Mu(Structure):
             a = W
             _required = []
-        return Shape(name, Mu)
+        return Shape(name, Mu, {"a": ("wrap", WKIND[name])}, [("a", list(Mu.a._fields))])
     m = re.match(r"^shared_(anyof|oneof|allof|notfield)$", name)
     if m:
         opt = _nn()
@@ -288,7 +344,8 @@ def _build_shape(name):
             a = mkw()
             b = mkw()
             _required = []
-        return Shape(name, Sm, racy=True)
+        return Shape(name, Sm, {f: ("wrap", WKIND[m.group(1)]) for f in "ab"},
+                     [("a", list(Sm.a._fields)), ("b", list(Sm.b._fields))], racy=True)
     m = re.match(r"^array_(anyof|oneof|allof|notfield|set|immset|map|array|pos|dequepos|tuple)$", name)
     if m:
         inner = {"anyof": lambda: AnyOf[Integer(minimum=0), String], "oneof": lambda: OneOf[Integer(minimum=0), String],
@@ -309,7 +366,8 @@ def _build_shape(name):
             a = ImmutableSet[it]
             b = ImmutableSet[it if name == "shared_immset" else _nn()]
             _required = []
-        return Shape(name, Im, racy=name == "shared_immset")
+        return Shape(name, Im, {"a": ("iset",), "b": ("iset",)}, [("a", [Im.a.items]), ("b", [Im.b.items])],
+                     racy=name == "shared_immset")
     if name in SER_SHAPES:
         # SerializableField items (custom deserialization: DateField / DateTime / Enum) inside collections
         decl = {"ser_map_date": lambda: Map[String, DateField], "ser_map_enumkey": lambda: Map[Enum[Color], DateTime],
@@ -366,6 +424,17 @@ def _build_shape(name):
              "class Customer(Structure):\n    name: str\n    visits: int = 0\n"
              "    address: Address = Address(city='Paris', zip_code='75001')\n", ns)  # pylint: disable=exec-used
         return Shape(name, ns["Customer"])
+    if name == "warm_ser":
+        # scalar SerializableFields: their deserialize / serialize / __set__ run on the field object shared by all instances
+        class Booking(Structure):
+            day = DateField
+            at = DateTime
+            t = TimeField
+            amount = DecimalNumber
+            color = Enum[Color]
+            n = Integer
+            _required = []
+        return Shape(name, Booking)
     if name == "mapper_hist":
         class Order(Structure):
             order_id = Integer
@@ -468,6 +537,7 @@ def _build_twin(name):
                  extra={"vk": {f: kind for f in "xyz"}, "roster": [(0, "x"), (0, "y"), (1, "z")]})
 
 
+WKIND = {"anyof": "anyOf", "oneof": "oneOf", "allof": "allOf", "notfield": "notField"}
 _SHAPES = {}
 
 
@@ -489,6 +559,9 @@ COLD_SHAPES = ["cold_camel", "cold_lower", "cold_dict", "cold_nested_mappers"]
 A_SHAPES = ["array_int", "deque_int", "tuple_homog", "array_two_fields", "set_int", "shared_set", "map_int",
             "shared_map", "pos_array", "pos_deque", "pos_tuple", "shared_pos_array", "shared_pos_deque",
             "shared_pos_tuple"]
+# multi-field wrappers over scalar options and ImmutableSet: modelled since round 2 (stream A with INTEGER values only)
+A2_SHAPES = ["anyof", "oneof", "allof", "notfield", "shared_anyof", "shared_oneof", "shared_allof", "shared_notfield",
+             "immset", "shared_immset"]
 E_SHAPES = ["shared_anyof", "shared_allof", "shared_oneof", "shared_notfield", "array_anyof", "array_oneof",
             "array_allof", "array_notfield", "array_set", "array_immset", "array_map", "array_array", "array_pos",
             "array_dequepos", "array_tuple", "immset", "shared_immset", "anyof", "oneof", "allof", "notfield",
@@ -622,6 +695,14 @@ def gen_value(rng, sname, field, bad=0.2):
         return {"d": {"code": "C" + str(_BASE[0]), "digits": _int(rng, 0.0)}} if field in ("currency", "fallback") else _int(rng, 0.0)
     if sname == "shared_default":
         return {"name": "n" + str(_BASE[0]), "visits": _int(rng, 0.0)}[field]
+    if sname == "warm_ser":
+        # documents: everything as the strings / numbers a JSON document carries
+        return {"day": lambda: "2024-%02d-%02d" % (rng.randint(1, 12), rng.randint(1, 28)),
+                "at": lambda: "%02d/%02d/24 01:02:03" % (rng.randint(1, 12), rng.randint(1, 28)),
+                "t": lambda: "%02d:%02d:00" % (rng.randint(0, 23), rng.randint(0, 59)),
+                "amount": lambda: "%d.%02d" % (rng.randint(0, 99), rng.randint(0, 99)),
+                "color": lambda: rng.choice(["RED", "GREEN", "BLUE"]),
+                "n": lambda: _int(rng, 0.0)}[field]()
     if sname == "mapper_hist":
         return "nt" + str(_BASE[0]) if field == "note" else _int(rng, 0.0)
     if sname in SER_SHAPES:
@@ -843,7 +924,12 @@ class Run:
                 r = 1
             elif self.scope == "fieldlines":
                 # every line of the field implementations and of the generic __set__ / _validate / __setattr__ code
-                r = 1 if (os.sep + "fields" + os.sep in fn or code.co_name in ("__set__", "_validate", "__setattr__")) else 0
+                r = 1 if (os.sep + "fields" + os.sep in fn or os.sep + "extfields" + os.sep in fn
+                          or code.co_name in ("__set__", "_validate", "__setattr__", "deserialize", "serialize")) else 0
+            elif self.scope == "serlines":
+                # the code that runs ON a shared SerializableField object: extfields/, every deserialize / serialize method
+                r = 1 if (os.sep + "extfields" + os.sep in fn or code.co_name in ("deserialize", "serialize")
+                          or (fn, code.co_firstlineno) in SITEFUNCS) else 0
             else:
                 r = 1 if (fn, code.co_firstlineno) in SITEFUNCS else 0
             self._codes[code] = r
@@ -852,6 +938,8 @@ class Run:
     def tracer(self, tid):
         evlines = EVLINES
         events_only = self.scope == "events"   # "sitelines": every line of a site function is a yield point
+        opcodes = self.scope == "siteops"      # "siteops": additionally every bytecode of a site function that can touch
+        hot = HOT_OPS                          # shared state (attribute / item / global access, calls) is a yield point
 
         last = [None, 0]
 
@@ -870,12 +958,20 @@ class Run:
                 if evs is None and events_only:
                     return local
                 self.yield_point(tid, frame, evs)
+            elif event == "opcode":
+                code = frame.f_code
+                if code.co_code[frame.f_lasti] in hot:
+                    self.yield_point(tid, frame, None)
             elif event == "return":
                 last[0] = None
             return local
 
         def g(frame, event, arg):
-            return local if self._in_scope(frame.f_code) else None
+            if not self._in_scope(frame.f_code):
+                return None
+            if opcodes:
+                frame.f_trace_opcodes = True
+            return local
         return g
 
     def yield_point(self, tid, frame, evs):
@@ -1076,10 +1172,18 @@ def set_modes(m):
             setattr(TypedPyDefaults, k, v)
 
 
+def run_history(case, sh):
+    """operations that ran (sequentially, to completion) before the concurrent ones: whatever they left in shared objects"""
+    if case.get("history"):
+        for op in build_ops({"shape": case["shape"], "threads": case["history"]}, sh):
+            outcome_of(op)
+
+
 def run_schedule(case, sched, scope):
     for attempt in (0, 1):
         sh = run_shape(case["shape"])
         reset_caches(sh)
+        run_history(case, sh)
         if case.get("warmup"):
             conts, snap, _ = warm_history(case)
             _restore(conts, snap)
@@ -1109,6 +1213,7 @@ def sequential(case):
     for perm in itertools.permutations(range(n)):
         sh = run_shape(case["shape"])
         reset_caches(sh)
+        run_history(case, sh)
         if case.get("warmup"):
             conts, snap, _ = warm_history(case)
             _restore(conts, snap)
@@ -1196,9 +1301,12 @@ def model_call(sh, th):
     if kind[0] == "homog":
         xs = v.get("l", v.get("q", v.get("t")))
         return {"k": "homog", "cell": cells[0], "name": f, "initW": kind[1], "elems": [el(x) for x in xs]}
-    if kind[0] == "set":
+    if kind[0] in ("set", "iset"):
         order = list(mk(v))   # iteration order of the real set
-        return {"k": "set", "cell": cells[0], "name": f, "elems": [el(x) for x in order]}
+        return {"k": kind[0], "cell": cells[0], "name": f, "elems": [el(x) for x in order]}
+    if kind[0] == "wrap":
+        owner = sh.classes[th.get("cls", 0)].__dict__[f]
+        return {"k": "wrap", "kind": kind[1], "name": f, "v": v, "opts": [[c, _accepts(o, v)] for c, o in zip(cells, owner._fields)]}
     if kind[0] == "map":
         return {"k": "map", "kc": cells[0], "vc": cells[1], "name": f, "entries": [[el(k), el(x)] for k, x in v["m"]]}
     if kind[0] == "pos":
@@ -1207,11 +1315,23 @@ def model_call(sh, th):
     raise KeyError(kind)
 
 
+def _accepts(option, v):
+    """does the option field accept the value (decided on a scratch structure, as the wrappers do)"""
+    try:
+        option.__set__(Structure(), v)
+        return True
+    except (TypeError, ValueError):
+        return False
+
+
 def real_as_model(sh, th, res):
     """abstract a real thread outcome to the model's outcome vocabulary"""
     if "err" in res:
         if res["err"] == "AttributeError":
             return {"missing": res["field"]}
+        if res["err"] == "KeyError":
+            m = re.search(r"'([^']*)'\"?$", res["msg"])
+            return {"missing": m.group(1) if m else res["msg"]}
         if res["err"] in ("TypeError", "ValueError"):
             return {"invalid": res["field"]}
         return {"other": res["err"]}
@@ -1226,6 +1346,10 @@ def real_as_model(sh, th, res):
         return {"ok": list(v.get("l", v.get("q", v.get("t"))))}
     if kind == "set":
         return {"okset": sorted(v["s"])}
+    if kind == "iset":
+        return {"okset": sorted(v["fs"])}
+    if kind == "wrap":
+        return {"ok": [v]}
     if kind == "map":
         return {"okmap": [[k, x] for k, x in v["m"]]}
     raise KeyError(kind)
@@ -1236,7 +1360,7 @@ def model_as_canon(sh, th, mo):
         return mo
     f = th["field"] if th["op"] == "setattr" else list(th["kw"])[0]
     kind = sh.model[f][0]
-    if kind == "set":
+    if kind in ("set", "iset"):
         return {"okset": sorted(set(mo["ok"]))}
     if kind == "map":
         d = {}
@@ -1269,7 +1393,8 @@ def run_impl(case):
         if k not in distinct:
             per_thread = [[e for t, e in r.events if t == i] for i in range(len(seq))] if stream == "A" else None
             distinct[k] = {"sched": sch, "res": r.results, "bad": bad, "conflicts": r.conflicts(), "mode": mode_dev,
-                           "msched": msched, "events": per_thread, "count": 0}
+                           "msched": msched, "events": per_thread, "count": 0,
+                           "wsites": sorted({(r.cell_ids.get(oid, -1), key) for key, oid, _, _ in r.writes}) if stream == "A" else None}
         distinct[k]["count"] += 1
     return {"seq": seq, "allowed": allowed, "runs": len(runs), "nonseq": nonseq, "outcomes": list(distinct.values())}
 
@@ -1279,6 +1404,7 @@ def line(case, impl):
     if case["stream"] == "A" and "outcomes" in impl:
         sh = shape(case["shape"])
         l["calls"] = [model_call(sh, th) for th in case["threads"]]
+        l["sites"] = [[c, k] for c, ks in sorted(sh.sites.items()) for k in sorted(ks)]
         l["schedules"] = [o["msched"] for o in impl["outcomes"]]
     return l
 
@@ -1294,6 +1420,10 @@ def correspondence(case, impl, model):
         if want != got:
             return f"sequential result of thread {i}: model {want} real {got}"
     for o, mrun in zip(impl["outcomes"], model["runs"]):
+        for c, key in o.get("wsites") or []:
+            if c >= 0 and key not in sh.sites.get(c, ()):
+                return (f"Field object (cell {c}) was renamed at site {key} but the model attributes it to "
+                        f"{sorted(sh.sites.get(c, ()))} (schedule {json.dumps(o['sched'])})")
         for i, th in enumerate(ths):
             steps = [s for s in model["progs"][i] if s != "E"]
             ev = o["events"][i]
@@ -1415,6 +1545,10 @@ def _gen_thread(rng, sname, stream, field, tid, cls):
         op = rng.choice(["setattr", "construct"])
     else:
         op = rng.choice(["setattr", "construct", "deserialize", "serialize", "construct"])
+    if stream == "A" and sname in A2_SHAPES and shape(sname).model[f][0] == "wrap":
+        # the model's values are integers: valid (>= 0) / rejected by the Integer(minimum=0) / Number(minimum=0) options
+        v = _int(rng, 0.35)
+        return {"op": op, "field": f, "value": v} if op == "setattr" else {"op": op, "kw": {f: v}}
     if op == "setattr":
         return {"op": op, "field": f, "value": gen_value(rng, sname, f)}
     if op == "serialize":
@@ -1444,6 +1578,9 @@ CANONICAL = [
     ("shared_pos_deque", {"q": [1, 2]}, {"q": [3, 4]}),
     ("shared_pos_tuple", {"t": [1, 2]}, {"t": [3, 4]}),
     ("array_two_fields", {"l": [10]}, {"l": [20, 21]}),
+    ("shared_anyof", 5, 7),
+    ("shared_allof", -1, 7),
+    ("shared_immset", {"fs": [1, 2]}, {"fs": [3]}),
 ]
 
 
@@ -1493,6 +1630,11 @@ def gen_cases(rng, tier, scale=1.0):
             add("A", sname, 2, max_pre=max_pre, cap=120 if quick else 650)
         if sname in ("array_int", "shared_set", "map_int") or not quick:
             add("A", sname, 3, max_pre=2, cap=120 if quick else 600)
+    for sname in A2_SHAPES:
+        for _ in range(reps_a if (not quick or shape(sname).racy) else 1):
+            add("A", sname, 2, max_pre=max_pre, cap=100 if quick else 500)
+        if not quick:
+            add("A", sname, 3, max_pre=2, cap=400)
     for sname, v0, v1 in CANONICAL_E:
         fl = pick_fields(rng, sname, 2)
         cases.append({"stream": "E", "shape": sname, "sseed": 1, "max_pre": 2, "cap": 400, "yield": "sitelines",
@@ -1664,6 +1806,32 @@ def gen_cases(rng, tier, scale=1.0):
                 ths.append({"op": op, "kw": {g: gen_value(rng, sname, g, bad=0.0 if op == "serialize" else 0.1) for g in fs}})
         cases.append({"stream": "B", "shape": sname, "threads": ths, "sseed": rng.randrange(1 << 30),
                       "max_pre": max_pre, "nsched": 30 if quick else 100})
+    # scalar SerializableFields (DateField / DateTime / TimeField / DecimalNumber / Enum): both threads handle EQUAL inputs
+    # (the records of one day) after a HISTORY in which the same fields handled other values; exhaustive single
+    # pre-emption at every line of extfields/ and of every deserialize / serialize method
+    for k in range(3 if quick else 10):
+        fs = [f for f in fields_of("warm_ser") if f != "n"]
+        pick = rng.sample(fs, 3 if quick else rng.randint(1, 4))
+        _BASE[0] = 0
+        same = {f: gen_value(rng, "warm_ser", f) for f in pick}
+        hist = {f: gen_value(rng, "warm_ser", f) for f in pick}
+        ths = []
+        for i in range(2):
+            _BASE[0] = i
+            op = rng.choice(["construct", "deserialize"])
+            ths.append({"op": op, "kw": dict(same, n=_int(rng, 0.0))})
+        cases.append({"stream": "E", "shape": "warm_ser", "threads": ths, "sseed": rng.randrange(1 << 30), "max_pre": 1,
+                      "cap": 400, "yield": "serlines",
+                      "history": [{"op": rng.choice(["construct", "deserialize"]), "kw": dict(hist, n=0)}]})
+    # BYTECODE-level pre-emption inside the functions of the shared-write table (CPython's real granularity): every
+    # attribute / item / global access and call of a site function is a yield point; exhaustive for one pre-emption
+    # (quick) / two (thorough); oracle only
+    ops_shapes = [x for x in A_SHAPES + A2_SHAPES if shape(x).racy or x in ("array_two_fields", "anyof", "immset")]
+    for sname in (rng.sample(ops_shapes, 5) if quick else ops_shapes):
+        add("E", sname, 2, max_pre=1 if quick else 2, cap=250 if quick else 300, **{"yield": "siteops"})
+    for sname in (rng.sample(COLD_SHAPES, 1) if quick else COLD_SHAPES):
+        for ops in ([["deserialize", "deserialize"]] if quick else [["deserialize", "deserialize"], ["serialize", "serialize"]]):
+            add_ops("E", sname, ops, max_pre=1, cap=400, **{"yield": "siteops"})
     reps_b = max(1, int((1 if quick else 4) * scale))
     for sname in (rng.sample(ALL_SHAPES, 14) if quick else ALL_SHAPES):
         for _ in range(reps_b):
